@@ -56,11 +56,18 @@ type resolver struct {
 	inProgressUses map[*Grouping]*usesResolved
 	unresolvedUses []*usesUnresolved
 	loadedModules  map[string]*Module
-	trace          bool
+	// modules whose imports are being resolved right now: importing one of them is a cycle
+	resolving map[string]bool
+	trace     bool
 }
 
 func (r *resolver) module(y *Module) error {
 	r.loadedModules[y.ident] = y
+	if r.resolving == nil {
+		r.resolving = make(map[string]bool)
+	}
+	r.resolving[y.ident] = true
+	defer delete(r.resolving, y.ident)
 	if y.featureSet != nil {
 		if err := y.featureSet.Initialize(y); err != nil {
 			return err
@@ -89,6 +96,10 @@ func (r *resolver) module(y *Module) error {
 			var rev string
 			if i.rev != nil {
 				rev = i.rev.Ident()
+			}
+			if r.resolving[i.moduleName] {
+				// RFC7950 Sec 5.1: there must not be any circular chains of imports
+				return fmt.Errorf("%s - circular import of %s", y.ident, i.moduleName)
 			}
 			if loaded, found := r.loadedModules[i.moduleName]; found {
 				i.module = loaded
